@@ -52,6 +52,8 @@ class Job:
         self.wall = 0.0
         self.log_path = ""
         self.replay: Optional[dict] = None
+        self.unwindset_resolved = ""
+        self.playback_tests: List[dict] = []
 
     @property
     def name(self):
@@ -73,18 +75,59 @@ def kani_flags(spec: dict) -> List[str]:
     return fl
 
 
+_loop_cache: Dict[str, str] = {}
+
+
+def resolve_unwindset(ob, asm, tk, fq: str) -> str:
+    """`fn_name.N:K,...` (pretty function name or its last path segment(s)) -> CBMC's mangled
+    loop ids, discovered with `cbmc --show-loops` on this harness' goto binary."""
+    want = ob.unwindset
+    if all(e.strip().startswith("_R") or e.strip().startswith("memcmp") for e in want.split(",")):
+        return want
+    key = fq
+    if key not in _loop_cache:
+        cmd = ["cargo", "kani", "--target-dir", tk, "--harness", fq, "--exact"] + kani_flags(asm.spec) + \
+              ["-Z", "unstable-options", "--output-format", "old", "--cbmc-args", "--show-loops"]
+        p = subprocess.run(cmd, cwd=asm.crate_dir, env=sh_env(), capture_output=True, text=True, timeout=600)
+        _loop_cache[key] = p.stdout + p.stderr
+    loops = re.findall(r"^Loop (\S+)\.(\d+):\n\s+file .*? function (.*)$", _loop_cache[key], re.M)
+    out = []
+    for e in want.split(","):
+        e = e.strip()
+        if not e:
+            continue
+        name, _, k = e.rpartition(":")
+        fn, _, num = name.rpartition(".")
+        if fn.startswith("_R") or "::" not in fn and fn in ("memcmp", "memcpy", "memmove", "memset"):
+            out.append(e)
+            continue
+        hits = [(m, n) for (m, n, pretty) in loops if n == num and (pretty.strip() == fn or pretty.strip().endswith("::" + fn) or re.sub(r"::<.*>$", "", pretty.strip()).endswith("::" + fn))]
+        if not hits:
+            # the named loop does not exist (any more): nothing to bound; every remaining loop
+            # falls under the harness-wide unwind value and its unwinding assertion
+            continue
+        for m, n in hits:
+            out.append("%s.%s:%s" % (m, n, k))
+    return ",".join(out)
+
+
 def run_job(job: Job, asm: assemble.Assembly, tk: str, logdir: str, extra_timeout: float = 1.0):
     ob = job.ob
     fq = ob.fq(asm.crate_name, job.suffix)
+    if ob.unwindset:
+        job.unwindset_resolved = resolve_unwindset(ob, asm, tk, fq)
     log = os.path.join(logdir, job.name + ".log")
     js = os.path.join(logdir, job.name + ".json")
     job.log_path = log
     cmd = ["cargo", "kani", "--target-dir", tk, "--harness", fq, "--exact"] + kani_flags(asm.spec)
     cmd += ["-Z", "unstable-options", "--export-json", js]
+    if job.kind == "main":
+        # ask for the counterexample in the same solver run (no second, possibly diverging, query)
+        cmd += ["-Z", "concrete-playback", "--concrete-playback=print"]
     if ob.raw.get("solver"):
         cmd += ["--solver", ob.raw["solver"]]
-    if ob.unwindset:
-        cmd += ["--cbmc-args", "--unwindset", ob.unwindset]
+    if ob.unwindset and job.unwindset_resolved:
+        cmd += ["--cbmc-args", "--unwindset", job.unwindset_resolved]
     t0 = time.time()
     timeout = ob.timeout * extra_timeout
     with open(log, "w") as lf:
@@ -105,6 +148,7 @@ def run_job(job: Job, asm: assemble.Assembly, tk: str, logdir: str, extra_timeou
     job.wall = time.time() - t0
     with open(log, errors="replace") as lf:
         text = lf.read()
+    job.playback_tests = extract_playback_tests(text)
     classify(job, text, timed_out, p.returncode, js)
 
 
@@ -156,7 +200,11 @@ def classify(job: Job, text: str, timed_out: bool, rc: int, js_path: str):
         elif any(UNWIND_PAT.search(f["description"]) for f in failed):
             job.status, job.reason = "INCONCLUSIVE", "unwinding assertion failed: bound too small"
         else:
-            job.status, job.reason = "INCONCLUSIVE", "failed without a failed check (see log)"
+            m = re.search(r"CBMC failed with status (\d+)", text)
+            if m:
+                job.status, job.reason = "INCONCLUSIVE", "CBMC crashed with status %s (memory cap of %d GB or solver abort)" % (m.group(1), job.ob.mem_gb)
+            else:
+                job.status, job.reason = "INCONCLUSIVE", "failed without a failed check (see log)"
         return
     tail = text[-600:].replace("\n", " | ")
     if "error: could not compile" in text or "error[E" in text:
@@ -268,10 +316,13 @@ def replay_violation(job: Job, asm, tk, workdir) -> dict:
     """Re-run with concrete playback, then execute natively."""
     ob = job.ob
     fq = ob.fq(asm.crate_name, job.suffix)
+    tests = [t for t in job.playback_tests if t["check_kind"] != "cover"]
+    if tests:
+        return _native_replays(tests, asm, ob, workdir)
     cmd = ["cargo", "kani", "--target-dir", tk, "--harness", fq, "--exact"] + kani_flags(asm.spec)
     cmd += ["-Z", "concrete-playback", "--concrete-playback=print"]
-    if ob.unwindset:
-        cmd += ["-Z", "unstable-options", "--cbmc-args", "--unwindset", ob.unwindset]
+    if ob.unwindset and resolve_unwindset(ob, asm, tk, fq):
+        cmd += ["-Z", "unstable-options", "--cbmc-args", "--unwindset", resolve_unwindset(ob, asm, tk, fq)]
     try:
         p = subprocess.run(cmd, cwd=asm.crate_dir, env=sh_env(), capture_output=True, text=True,
                            timeout=max(ob.timeout * 2, 600), preexec_fn=_limit(max(ob.mem_gb, 12)))
@@ -280,6 +331,10 @@ def replay_violation(job: Job, asm, tk, workdir) -> dict:
     tests = [t for t in extract_playback_tests(p.stdout + p.stderr) if t["check_kind"] != "cover"]
     if not tests:
         return {"reproduced": False, "error": "no concrete playback test produced", "tail": (p.stdout + p.stderr)[-800:]}
+    return _native_replays(tests, asm, ob, workdir)
+
+
+def _native_replays(tests, asm, ob, workdir) -> dict:
     results = []
     for t in tests[:3]:
         r = native_playback(asm, ob, t["test_fn"], t["test_text"], workdir)
